@@ -345,6 +345,56 @@ pub fn arms_program(expr: &Ty, pos: Position, compact_attr: bool, n_name: &str) 
     }
 }
 
+/// D-real: one program with the shapes real chain metadata has and the small drivers do not: an enum with 130
+/// variants whose indices have gaps (0, 2, 4 ... 254, then 255), docs on every variant, a module path five
+/// segments deep, a three-parameter generic whose middle parameter is skipped (BoundedVec style), a ten-element
+/// tuple, arrays of length 64 and 256, `Option<Box<Self>>`.
+pub fn real_shapes_program() -> Program {
+    let deep = ["p", "q1", "q2", "q3", "q4"];
+    let mut defs = vec![];
+    // 0: Bounded<T, S, U> { inner: Vec<T>, extra: U } with S skipped
+    let mut bounded = Def::strukt(&deep, "Bounded", &["T", "S", "U"], named(vec![("inner", Ty::Vec(b(Ty::Param(0)))), ("extra", Ty::Param(2))]));
+    bounded.params[1].skipped = true;
+    defs.push(bounded);
+    // 1: Max (the bound marker), 2: Leaf
+    defs.push(Def::strukt(&deep, "Max", &[], Fields::Unit));
+    defs.push(Def::strukt(&["p", "a"], "Leaf", &[], named(vec![("v", U32)])));
+    // 3: Big enum
+    let mut variants = vec![];
+    for i in 0..130usize {
+        let index = if i < 128 { (i * 2) as u8 } else if i == 128 { 255 } else { 253 };
+        let fields = match i % 4 {
+            0 => Fields::Unit,
+            1 => Fields::Unnamed(vec![Field::new(U8), Field::new(Ty::Named(2, vec![]))]),
+            2 => Fields::Named(vec![("a".into(), Field::new(Ty::Named(0, vec![U8, Ty::Named(1, vec![]), U16]))), ("b".into(), Field { compact: true, ..Field::new(U32) })]),
+            _ => Fields::Named(vec![("next".into(), Field::new(Ty::Option(b(Ty::Box(b(Ty::Named(3, vec![])))))))]),
+        };
+        variants.push(Variant {
+            index: Some(index),
+            docs: vec![format!("variant number {i}"), "second line".into()],
+            ..variant(&format!("V{i}"), fields)
+        });
+    }
+    defs.push(Def {
+        docs: vec!["a large enum".into()],
+        ..Def::enm(&deep, "Big", &[], variants)
+    });
+    // 4: Host
+    defs.push(Def::strukt(
+        &["p", "h"],
+        "Host",
+        &[],
+        named(vec![
+            ("big", Ty::Named(3, vec![])),
+            ("ten", Ty::Tuple(vec![U8, U16, U32, U8, U16, U32, U8, U16, U32, Ty::Named(2, vec![])])),
+            ("a64", Ty::Array(b(U8), 64)),
+            ("a256", Ty::Array(b(Ty::Named(2, vec![])), 256)),
+            ("bounded", Ty::Named(0, vec![Ty::Named(2, vec![]), Ty::Named(1, vec![]), U8])),
+        ]),
+    ));
+    Program { defs, roots: vec![Ty::Named(4, vec![])] }
+}
+
 /// All programs of one D-arms state.
 pub fn arms_programs(expr: &Ty) -> Vec<(Program, String)> {
     let mut out = vec![];
